@@ -75,6 +75,24 @@ def work_invalid(item, opts):
                 if mon.steps:
                     out["viol"].append({"key": {"optimizer": name, "kind": "invalid-call-rejected-late", "call": kind},
                                         "detail": f"{kind} {kw}: ValueError only after {mon.steps} cycle(s)"})
+                elif kind != "no-configuration":
+                    # a rejected call must leave the instance usable: the next, valid call yields a result exactly as
+                    # it does on a fresh instance (differential, so input-dependent failures of the algorithm itself
+                    # are not attributed to the rejected call)
+                    hooks.CUR.mon = None
+                    vmode = rng.choice(["thread", "serial", "process"])
+                    rid2 = rid + "-v"
+                    tasks.register_run(rid2, spec)
+                    try:
+                        st1, r1 = optimize_plain(o, tasks.build_task(spec, rid2), mode=vmode, workers=None)
+                        st2, r2 = optimize_plain(cls(Cfg(**cfg)), tasks.build_task(spec, rid2), mode=vmode, workers=None)
+                    finally:
+                        tasks.unregister_run(rid2)
+                    out["followups"] = out.get("followups", 0) + 1
+                    if st1 == "exc" and st2 == "ok":
+                        out["viol"].append({"key": {"optimizer": name, "kind": "valid-call-fails-after-rejected-call", "call": kind},
+                                            "detail": f"after the rejected call ({kind} {kw}) a valid optimize(mode={vmode!r}) on the same instance "
+                                                      f"raised {r1['exc']} in {r1['func']}: {r1['msg'][:120]}; a fresh instance succeeds"})
             except Exception as e:
                 out["viol"].append({"key": {"optimizer": name, "kind": "invalid-call-wrong-error", "call": kind},
                                     "detail": f"{kind} {kw}: raised {type(e).__name__}: {e}"[:250]})
@@ -171,12 +189,14 @@ def check(prop, tier, seed):
     iitems = [{"opt": nme, "seed": f"{seed}/{r}"} for nme in names for r in range(1 if tier == "quick" else 6)]
     res = runner.run_parallel("pvmon.props.c06", "work_invalid", iitems, {})
     invalid_calls = 0
+    followups = 0
     inv_opts = set()
     for it, r in zip(iitems, res):
         if isinstance(r, Lost):
             rep.lost += 1
             continue
         invalid_calls += r["n"]
+        followups += r.get("followups", 0)
         inv_opts.add(r["opt"])
         rep.evaluations += r["n"]
         for j in range(r["n"]):
@@ -191,7 +211,8 @@ def check(prop, tier, seed):
                       "strict_class_exceptions": strict_exc, "integer_pairs_observed": len(int_pairs),
                       "integer_pairs_judged_for_wholesale_failure": judged_pairs,
                       "integer_pairs_failing_in_baseline": len(failing_today),
-                      "invalid_calls_judged": invalid_calls, "invalid_definitions_judged": nd})
+                      "invalid_calls_judged": invalid_calls, "invalid_definitions_judged": nd,
+                      "valid_followup_calls_after_rejection": followups})
     for item, obs in pairs[:3]:
         rep.sample({"item": item, "optimizer": obs["opt"], "task_kind": obs["kind"], "mode": obs["mode"], "outcome": obs["outcome"]})
     rep.sample({"invalid_calls_per_optimizer": ["no configuration", "unknown mode x3", "workers in {0,-1,-k}", "more/fewer weights than objectives", "weights on a single objective"]})
